@@ -85,6 +85,7 @@ type Encoder struct {
 	Opt      EncOptions
 	typeList []string
 	classes  map[string]int
+	last     int
 	nclasses int
 	refs     map[*av.V]int
 	nrefs    int
@@ -116,6 +117,12 @@ func (e *Encoder) choose(n int, what string) int {
 		e.NonCanonical++
 	}
 	return c
+}
+
+// chooseKeep is choose, remembering the answer for the branch that follows.
+func (e *Encoder) chooseKeep(n int, what string) int {
+	e.last = e.choose(n, what)
+	return e.last
 }
 
 // Encode writes one top-level value.
@@ -580,10 +587,15 @@ func (e *Encoder) mapv(v *av.V) {
 	case v.Typed && !(v.Static && e.choose(2, "map-drop-type") == 1):
 		e.W.WriteByte('M')
 		e.typeName(v.Type)
-	case !v.Typed && v.Field && e.choose(2, "map-add-type") == 1:
-		// a map in a struct field: the Go type decides, any wire type is acceptable
+	case !v.Typed && v.Field && e.chooseKeep(3, "map-add-type") >= 1:
+		// a map in a struct field: the Go type decides, any wire type is acceptable - also the empty name some
+		// writers send for "no particular type" (it takes a place in the type list like any other name)
 		e.W.WriteByte('M')
-		e.typeName("java.util.HashMap")
+		if e.last == 2 {
+			e.typeName("")
+		} else {
+			e.typeName("java.util.HashMap")
+		}
 	default:
 		e.W.WriteByte('H')
 	}
